@@ -364,3 +364,70 @@ FINDC = ["stub: IndexTable::find_entry -> its contract"]
 OVVIEW = ["model: read paths generic in `impl LogQuery` are driven with harness type OvView"]
 add("C07", H("table", "c07_r1_change_ref_multihead", "thorough", ["C07.R1"], "counter:u32, delta, all other bytes of a multipart head", "entry 64 bytes; unwind 66 (slow: both the multipart and the size-field branch of change_ref are explored on the 32 KiB buffer)", 5400, 10, unwind=66,
              stubs=ENV + OVERLAY + TFILE, replay="playback-native-env"))
+
+# ======================================================================================== round 3 (DESIGN 10.7)
+# ---- caller loops over index candidates, assume/guarantee (IndexTable::get by contract, confirmation verdict symbolic)
+GETC = ["stub: IndexTable::get -> its contract over a harness-chosen candidate list (first matching slot >= sub_index, else empty); C19 proves find_entry refines it",
+        "stub: ValueTable::has_key_at / Column::get_value -> symbolic verdict per candidate address (does the stored key tail match)"]
+_l_shapes = (("current_3", "quick"), ("cur1_q1_q2", "quick"), ("cur0_q2_q2", "thorough"), ("cur2_q0_q2", "thorough"))
+for pid, lab in (("C09", "C09.L"), ("C07", "C09.L"), ("C01", "C09.L"), ("C14", "C14.L")):
+    for shp, tier in _l_shapes:
+        if pid in ("C07", "C14"):
+            add(pid, H("column", "c09_l_search_" + shp, tier, [lab, "C14.L"], "candidate slots (strictly increasing per index), confirmation verdict per candidate, key; candidates per (current, queued 16-bit, queued 17-bit) index as named",
+                       "<= 4 candidates over 3 index tables; unwind 12", 900, 4, unwind=12, stubs=ENV + GETC, replay="solver-trace-only"))
+        if pid in ("C09", "C01", "C14"):
+            add(pid, H("column", "c09_l_get_" + shp, tier, [lab, "C14.L"], "as above (read path: HashColumn::get / get_in_index)", "<= 4 candidates over 3 index tables; unwind 12", 900, 4,
+                       unwind=12, stubs=ENV + GETC, replay="solver-trace-only"))
+        if pid == "C09":
+            add(pid, H("column", "c09_l_search_" + shp, tier, [lab], "as above (write path: HashColumn::search_all_indexes / search_index)", "<= 4 candidates over 3 index tables; unwind 12", 900, 4,
+                       unwind=12, stubs=ENV + GETC, replay="solver-trace-only"))
+PROPS["C09"]["functions"] += ["HashColumn::{get, get_in_index, search_all_indexes, search_index} (candidate loops; IndexTable::get and the key-tail confirmation by contract)",
+                              "HashColumn::{reindex, drop_index} (IndexTable::entries / drop_file by contract)"]
+PROPS["C07"]["functions"] += ["HashColumn::{search_all_indexes, search_index} (candidate loop)"]
+PROPS["C01"]["functions"] += ["HashColumn::{get, get_in_index} (candidate loop over current and queued indexes)"]
+PROPS["C14"]["functions"] += ["HashColumn::{get, get_in_index, search_all_indexes, search_index} (values are only fetched at addresses that came out of an index entry)"]
+# ---- reindex batch and hand-over
+ENTC = ["stub: IndexTable::entries -> page p of the source index is a symbolic sparse page (3 symbolic entries at symbolic slots)", "stub: IndexTable::drop_file -> counts calls (remove_file is FFI)"]
+add("C09", H("column", "c09_r_drop_index_restarts_progress", "quick", ["C09.R"], "progress cursor:u64, dropped id in {queue front, second, foreign}", "queue of 2 older indexes; one call", 600, 4, unwind=12, stubs=ENV + ENTC, replay="solver-trace-only"))
+
+# ---- iosub build: DbInner-level obligations (C13.P3 record gate)
+IOSUB = ["model: payload of Error::Io / Error::Locked reduced to its ErrorKind (crate::verif_io::IoErr; parity-db only inspects kind()); the drop glue of std::io::Error is not explored"]
+CRCU = ["stub: crc32fast::Hasher::{update, finalize} -> uninterpreted checksum (one fixed arbitrary u32); the real CRC is used in C13.P1b and c13_p3_enact_logs_validation_gate"]
+for fn, tier in (("begin_end", "quick"), ("begin_begin", "thorough"), ("begin_insert_value", "quick"), ("begin_insert_index", "thorough"), ("begin_drop_table", "quick"), ("begin_unknown_tag", "thorough"),
+                 ("begin_only", "quick"), ("begin_torn", "thorough"), ("begin_end_torn", "quick"), ("starts_with_end", "quick"), ("starts_with_insert", "thorough"), ("empty_file", "thorough")):
+    add("C13", H("db", "c13_p3g_gate_" + fn, tier, ["C13.P3"], "log bytes other than the two action tags (record number, table ids, stored checksum, payload), last_enacted:u64, checksum value:u32",
+                 "record shape (action tags, truncation offset) as named; database without columns; one enact_logs(validation) call; unwind 20", 1500, 10, variant="iosub", unwind=20,
+                 stubs=ENV + FILEREAD + IOSUB + CRCU, replay="solver-trace-only"))
+add("C13", H("db", "c13_p3_enact_logs_validation_gate", "thorough", ["C13.P3"], "record id:u64 of a minimal checksum-valid record (real CRC), last_enacted:u64", "database without columns; one call; unwind 40", 3600, 14,
+             variant="iosub", unwind=40, stubs=ENV + FILEREAD + IOSUB, replay="solver-trace-only"))
+PROPS["C13"]["functions"] += ["DbInner::enact_logs (validation mode: record-sequence gate, whole-record validation before last_enacted moves, replay queue discarded)", "Log::{read_next, clear_replay_logs}", "LogReader::{next, reset}"]
+for fn, tier in (("c09_r_reindex_batch_last_two_pages", "quick"), ("c09_r_reindex_batch_last_page", "thorough"), ("c09_r_reindex_batch_nothing_left", "quick")):
+    add("C09", H("column", fn, tier, ["C09.R"], "none beyond the page layout (live slots and their content are concrete; the entry arithmetic is C20.M2 / C09.G1)", "source index of 16 bits, 0..=2 pages left; unwind 66", 600, 4,
+                 unwind=66, stubs=ENV + ENTC, replay="solver-trace-only"))
+# ---- C04.R: Node::rebalance over a parent and three children held by the harness
+NODEC = ["stub: Node::fetch_child -> the harness's child nodes (a node rewritten earlier in the call is read back as written)",
+         "stub: BTreeTable::write_node_plan -> captures (address, node), rewrites in place", "stub: BTreeTable::write_plan_remove_node -> records the released address (at most once each)"]
+for fn, tier in (("c04_r_rebalance_borrow_left_inner", "quick"), ("c04_r_rebalance_borrow_left_leaf", "thorough"), ("c04_r_rebalance_borrow_right_inner_first", "quick"),
+                 ("c04_r_rebalance_borrow_right_inner_mid", "thorough"), ("c04_r_rebalance_borrow_right_leaf", "quick"), ("c04_r_rebalance_merge_mid_inner", "quick"),
+                 ("c04_r_rebalance_merge_last_inner", "quick"), ("c04_r_rebalance_merge_first_leaf", "thorough")):
+    add("C04", H("btree::node", fn, tier, ["C04.R"], "all separator keys of the parent (2) and of its three children (one byte each); child sizes and the under-full position as named",
+                 "parent with 3 children of 3..6 separators, depth 1 (leaf children) or 2 (inner children); unwind 12", 900, 4, unwind=12, stubs=ENV + NODEC, replay="solver-trace-only"))
+PROPS["C04"]["functions"] += ["btree::node::Node::rebalance (borrow from left / right sibling, merge; children by contract)", "Node::{set_separator, set_child, remove_child, remove_separator, write_child, has_separator, last_separator_index}"]
+
+# ---- C14.W / C09.N: HashColumn::write_plan glue between value tables and index (callees by contract)
+WPC = GETC + ["stub: Column::{write_existing_value_plan, write_new_value_plan} -> symbolic outcome (updated in place / moved to a symbolic address / removed), calls recorded",
+              "stub: IndexTable::{write_insert_plan, write_remove_plan} -> calls recorded; the first k insertions (k symbolic in 0..=2) answer NeedReindex"]
+_w = (("c14_w_existing_set_in_current", "quick", "C14.W"), ("c14_w_existing_set_in_queued", "quick", "C14.W"), ("c14_w_existing_dereference_in_current", "thorough", "C14.W"),
+      ("c14_w_existing_dereference_in_queued", "quick", "C14.W"), ("c14_w_existing_reference_in_current", "thorough", "C14.W"), ("c09_n_new_key_set_grows_index", "quick", "C09.N"),
+      ("c14_w_missing_reference", "thorough", "C14.W"), ("c14_w_missing_dereference", "quick", "C14.W"), ("c14_w_missing_tree_op", "thorough", "C14.W"))
+for pid in ("C14", "C09", "C07"):
+    for fn, tier, lab in _w:
+        if pid == "C09" and lab != "C09.N" and "queued" not in fn:
+            continue
+        if pid == "C07" and ("set" in fn or "tree" in fn):
+            continue
+        add(pid, H("column", fn, tier, [lab], "key, slot of the existing entry, outcome of the value operation, new address, number of full pages met (0..=2)",
+                   "current index of 18 bits, queue of older 16/17-bit indexes; one write_plan call; unwind 12", 900, 4, unwind=12, stubs=ENV + WPC, replay="solver-trace-only"))
+PROPS["C14"]["functions"] += ["HashColumn::{write_plan, write_plan_existing, write_plan_new, trigger_reindex} (value-table and page operations by contract)"]
+PROPS["C09"]["functions"] += ["HashColumn::{write_plan, write_plan_new, trigger_reindex} (growth on a full page)"]
+PROPS["C07"]["functions"] += ["HashColumn::{write_plan, write_plan_existing} (reference / dereference glue)"]
